@@ -124,7 +124,13 @@ pub fn main(args: &[String], w: &mut dyn Write) {
         let dir = tempfile::Builder::new().prefix("updcli.").tempdir_in(&base).unwrap();
         let tmp = dir.path().join("tmp"); std::fs::create_dir_all(&tmp).unwrap();
         let doc = dir.path().join("doc.md");
-        std::fs::write(&doc, &text).unwrap();
+        // one document in five has CR LF line endings: they are kept by update (every line, inside and outside blocks); the texts are
+        // reported with LF, the line endings as a flag
+        let crlf = r.chance(1, 5);
+        std::fs::write(&doc, if crlf { text.replace('\n', "\r\n") } else { text.clone() }).unwrap();
+        let endings = |t: &str| -> &'static str {
+            let lf = t.matches('\n').count(); let cr = t.matches("\r\n").count();
+            if lf == 0 { "none" } else if cr == lf { "crlf" } else if cr == 0 { "lf" } else { "mixed" } };
         let mut base_args: Vec<&str> = vec!["--log-level", "error"];
         let lang_args: Vec<&str> = if lang == "sh" { vec!["--markdown-languages", "sh"] } else { vec![] };
         // the path comes first: --markdown-languages takes any number of values
@@ -133,13 +139,15 @@ pub fn main(args: &[String], w: &mut dyn Write) {
         let u1 = std::fs::read_to_string(&doc).unwrap_or_default();
         let e2 = run_scrut(&scrut, dir.path(), &tmp, &upd);
         let u2 = std::fs::read_to_string(&doc).unwrap_or_default();
+        let (end1, end2) = (endings(&u1), endings(&u2));
+        let (u1, u2) = (u1.replace("\r\n", "\n"), u2.replace("\r\n", "\n"));
         let mut tst: Vec<&str> = vec!["test"]; tst.append(&mut base_args); tst.push("doc.md"); tst.extend(&lang_args);
         let et = run_scrut(&scrut, dir.path(), &tmp, &tst);
         let p = MarkdownParser::new(mk.clone(), &[lang], None);
         let kinds: Vec<&str> = d.iter().filter_map(|e| match e { El::Test { words, expect, code, expect_code, .. } =>
             Some(if passes(words, expect, *code, *expect_code) { "ok" } else if expect_code.unwrap_or(0) != *code { "code" } else { "output" }), El::Detached => Some("ok"), _ => None }).collect();
         let norm = |t: &str| if lang == "sh" { swap_lang(t) } else { t.to_string() };
-        writeln!(w, "K {}|{}|{}|{}|{}|{}|lang={} update={},{} test={}", hex(norm(&text).as_bytes()), kinds.join(","), hex(norm(&u1).as_bytes()), hex(norm(&u2).as_bytes()),
-            cmds(&p, &text), cmds(&p, &u1), lang, e1, e2, et).unwrap();
+        writeln!(w, "K {}|{}|{}|{}|{}|{}|lang={} update={},{} test={} endings={}>{}>{}", hex(norm(&text).as_bytes()), kinds.join(","), hex(norm(&u1).as_bytes()), hex(norm(&u2).as_bytes()),
+            cmds(&p, &text), cmds(&p, &u1), lang, e1, e2, et, if crlf { "crlf" } else { "lf" }, end1, end2).unwrap();
     }
 }
